@@ -231,9 +231,9 @@ def _tracks_equal(a, b):
     return None
 
 
-def check_fixed_point(b):
+def check_fixed_point(b, cs=None):
     try:
-        f1 = load_bytes(b)
+        f1 = load_bytes(b, cs)
     except Exception:  # noqa: BLE001
         return [], 'noload'
     try:
@@ -246,7 +246,7 @@ def check_fixed_point(b):
     except Exception as exc:  # noqa: BLE001
         return [fail('loaded-file-does-not-save', f'{exc!r}', exc=exc_sig(exc))], 'x'
     try:
-        f2 = load_bytes(b2)
+        f2 = load_bytes(b2, cs)
     except Exception as exc:  # noqa: BLE001
         return [fail('resaved-file-does-not-load', f'{exc!r}', exc=exc_sig(exc))], 'x'
     out = []
@@ -286,7 +286,7 @@ def run_case(case):
     if k == 'refusal':
         return check_refusal(case['file'], case['inj'])
     if k == 'bytes':
-        return check_fixed_point(bytes(case['bytes']))[0]
+        return check_fixed_point(bytes(case['bytes']), case.get('charset'))[0]
     raise KeyError(k)
 
 
@@ -402,6 +402,20 @@ def main(ctx):
     ctx.pmap('hyp_shard', [('roundtrip', k, n // w) for k in range(w)] +
              [('refusal', k, n // (2 * w)) for k in range(w)] +
              [('mutants', k, 4 * n // w) for k in range(w)])
+    # whatever loads under a charset is a fixed point of load-save-load under that charset: every single-byte change of
+    # the text payloads of a small file, for charsets that are not total on bytes
+    for cs, text in (('ascii', 'abc'), ('cp1252', '\u20ac5 caf\u00e9'), ('shift_jis', '\u65e5\u672c a'), ('utf-8', 'caf\u00e9 \u20ac'),
+                     ('utf-16', 'ab'), ('latin1', 'caf\u00e9')):
+        tr = [{'type': 'track_name', 'name': text, 'time': 0}, {'type': 'note_on', 'channel': 0, 'note': 60, 'velocity': 1, 'time': 5},
+              {'type': 'lyrics', 'text': text, 'time': 3}]
+        good = F.encode_file(1, 480, [tr + [{'type': 'end_of_track', 'time': 0}]], charset=cs)[0]
+        payload = text.encode(cs)
+        start = bytes(good).find(payload)
+        for off in range(len(payload)):
+            for val in (0x80, 0x81, 0x8D, 0x90, 0xA0, 0xFF, 0xFE, 0x00, 0x1B):
+                mutated = bytearray(good)
+                mutated[start + off] = val
+                ctx.check({'kind': 'bytes', 'bytes': list(mutated), 'charset': cs}, classes=('charset-mutant',), sample=False)
     # files in another text encoding than the default (text that is spelled differently in latin1)
     for cs, text in (('utf-8', 'caf\u00e9 \u20ac \u65e5\u672c'), ('cp437', 'caf\u00e9 \u0398'), ('mac_roman', '\u00e9t\u00e9'),
                      ('cp1252', '\u20ac5'), ('utf-16', 'ab\u00e9'), ('shift_jis', '\u65e5\u672c'), ('latin1', '\u00e9')):
